@@ -232,7 +232,9 @@ func vc22Gen(r *vRand, w vc22World, assets []uint64, naccts int) vc22Op {
 	acct := func() uint64 { return uint64(1 + r.Intn(naccts)) }
 	any := func() uint64 {
 		if r.Intn(25) == 0 {
-			return uint64(r.Intn(naccts + 2))
+			// an account without asset state; never the zero address: the package's
+			// evalTestLedger answers "no such account" for addresses outside its genesis
+			return uint64(1 + r.Intn(naccts+1))
 		}
 		return acct()
 	}
